@@ -1,5 +1,6 @@
 import Aurora.Lemmas.Blocker
 import Aurora.Generated.BlockerLocks
+import Aurora.Lemmas.BlockerLockSet
 /-!
 # C26 — Unresponsive peers are blocked only after the flag timeout
 
@@ -132,6 +133,17 @@ theorem C26_lock_discipline :
     (∃ x ∈ Generated.BlockerLocks.accesses, x.field = "peers") ∧
     Generated.BlockerLocks.tickGuarded = true := by
   decide
+
+/-- **Mutual exclusion on the flag table**, from the regenerated table and the lock-set lemma
+    (`Lemmas/BlockerLockSet.lean`): in the abstract program whose threads execute the extracted
+    accesses in the lock state the extractor recorded, acquire `mu` only when it is free and never
+    lock/unlock in the middle of an access, no reachable configuration has two threads inside
+    `peers` accesses at once.  So the bodies of `Flag`/`Unflag`/`PruneUnseen`/`block` exclude one
+    another: a concurrent execution is an interleaving of whole method bodies, i.e. a `List Op`.
+    (That Go's `sync.Mutex` realises `acquire`/`release` is the assumed part.) -/
+theorem C26_no_race_on_peers {c : LockSet.Cfg}
+    (h : LockSet.Reach Generated.BlockerLocks.accesses c) : ¬ LockSet.Race c :=
+  LockSet.no_race C26_lock_discipline.1 h
 
 /-! ### non-vacuity -/
 
